@@ -65,6 +65,9 @@ type faultCase struct {
 	Idle        bool   `json:"idle,omitempty"`
 	Unsolicited string `json:"unsolicited,omitempty"`
 	NextOp      string `json:"next_op,omitempty"`
+	// TimedOut (fault ioerr): the persistent read error is "connection timed out" (an error whose
+	// Timeout() is true) instead of EIO
+	TimedOut bool `json:"timed_out,omitempty"`
 }
 
 func genFault(prop string, r *sim.Rng, i int) *faultCase {
@@ -79,6 +82,7 @@ func genFault(prop string, r *sim.Rng, i int) *faultCase {
 	} else {
 		c.Fault = r.Pick([]string{"eof", "ioerr", "ioerr", "writeerr"})
 		c.Timeout = "conn"
+		c.TimedOut = c.Fault == "ioerr" && r.Chance(1, 3)
 	}
 	switch r.Intn(3) {
 	case 0:
@@ -416,7 +420,11 @@ func execFault(c *faultCase, fault bool, k int) *faultRun {
 		case "eof":
 			tr.SetLoss(fr.d0+k, sim.LossEOF)
 		case "ioerr":
-			tr.SetLoss(fr.d0+k, sim.LossErr)
+			if c.TimedOut {
+				tr.SetLoss(fr.d0+k, sim.LossErrTimedOut)
+			} else {
+				tr.SetLoss(fr.d0+k, sim.LossErr)
+			}
 		case "writeerr":
 			tr.SetWriteErr(fr.w0 + k)
 		}
@@ -487,6 +495,8 @@ func execFault(c *faultCase, fault bool, k int) *faultRun {
 		_, dl, _ := tr.Snapshot()
 		if c.Fault == "eof" {
 			tr.SetLoss(dl, sim.LossEOF)
+		} else if c.TimedOut {
+			tr.SetLoss(dl, sim.LossErrTimedOut)
 		} else {
 			tr.SetLoss(dl, sim.LossErr)
 		}
